@@ -200,8 +200,9 @@ func (pr *ProtoArray) CanonAtSlot(anchor Root, slot Slot, withBlock bool) (at No
 	if err != nil {
 		return NodeRef{}, err
 	}
-	// The head may be the closest we have.
-	if head.Slot <= slot {
+	// The head may be the closest we have: nothing exists at the slot yet.
+	// If the head is at the slot itself, the walk below picks the node of the requested kind.
+	if head.Slot < slot {
 		return head, nil
 	}
 	// Walk back the canonical chain, and stop as soon as we find the node at slot of interest.
